@@ -906,6 +906,68 @@ def compose_history(pk, T, N, letters, ins, vio):
     return n
 
 
+def copy_history(pk, T, N, letters, ins, vio):
+    """copy() must not entangle the two circuits either: a circuit is compiled (layer by layer, or as a whole), copied,
+    ONE of the two takes the remaining gates (gates sinking into existing layers included) and is compiled again in the
+    same way; then the OTHER one must still act as its own gate sequence - as it stands and after being recompiled -
+    and the extended one as the full sequence.  Every split point, both directions of extension."""
+    n = 0
+    L = len(letters)
+    for cls in pk.classes:
+        if not pk.has(cls, 'copy'):
+            continue
+        c = 'cc' if cls == 'CliffordCircuit' else 'ct'
+        for how in ('layers', 'whole'):
+            def comp(x):
+                if how == 'whole':
+                    pk.compile(x, N)
+                else:
+                    for lay in walk(x)[0]:
+                        lay.compile(N)
+            for k in range(0, L):
+                fk = ident(N)
+                for l in letters[:k]:
+                    fk = l.perm[fk]
+                ffull = ident(N)
+                for l in letters:
+                    ffull = l.perm[ffull]
+                for who in ('copy', 'original'):
+                    try:
+                        a, _ = build(pk, cls, N, letters[:k])
+                        comp(a)
+                        b = a.copy()
+                        mut, other = (b, a) if who == 'copy' else (a, b)
+                        for l in letters[k:]:
+                            mut.take(l.mk(pk))
+                        comp(mut)
+                    except Exception as e_:
+                        vio('%s/%s.compiled(%s)-copy-extend-%s/raises-%s' % (T, c, how, who, type(e_).__name__), 'compile (%s), copy, extend the %s at split %d, compile raised %s: %s' % (how, who, k, type(e_).__name__, e_))
+                        return n + 1
+                    for stage in ('as-it-stands', 'recompiled'):
+                        if stage == 'recompiled':
+                            try:
+                                comp(other)
+                            except Exception as e_:
+                                vio('%s/%s.compiled(%s)-copy-extend-%s/raises-%s' % (T, c, how, who, type(e_).__name__), 'recompiling the untouched circuit raised %s' % e_)
+                                return n + 1
+                        for obj_c, perm, role in ((other, fk, 'untouched'), (mut, ffull, 'extended')):
+                            for inp in ins[:2]:
+                                for d, pf in (('forward', perm), ('backward', inverse_perm(perm))):
+                                    obj = pk.fresh(inp)
+                                    try:
+                                        getattr(obj_c, d)(obj)
+                                    except Exception as e_:
+                                        vio('%s/%s.compiled(%s)-copy-extend-%s/raises-%s' % (T, c, how, who, type(e_).__name__), '%s of the %s circuit raised %s' % (d, role, e_))
+                                        return n + 1
+                                    n += 1
+                                    if not agrees_with_ref(observe(pk, obj, inp), inp, pf):
+                                        vio('%s/%s.compiled(%s)-copy-extend-%s/%s-circuit-%s' % (T, c, how, who, role, stage),
+                                            'circuit of the first %d gates compiled (%s), copied, the %s extended by the last %d gates and compiled again: the %s circuit (%s) does not act as its own gate sequence (%s on %s)' % (
+                                                k, 'layer by layer' if how == 'layers' else 'as a whole', who, L - k, role, stage, d, inp.name))
+                                        return n
+    return n
+
+
 # ======================================================================= program runner
 def run_programs(prop, tag, items):
     """items = [[N, [letter indices]], ...].  prop in {'C09','C10'}; tag in {'py','torch'}."""
@@ -971,6 +1033,9 @@ def run_programs(prop, tag, items):
         if tag == 'py' and prop == 'C09' and 1 <= L <= 3:
             n += compose_history(pk, T, N, letters, ins, vio)
             extra['cfg_compose-then-take'] = extra.get('cfg_compose-then-take', 0) + 1
+        if prop == 'C09' and 1 <= L <= 3:
+            n += copy_history(pk, T, N, letters, ins, vio)
+            extra['cfg_compiled-copy-extend-other'] = extra.get('cfg_compiled-copy-extend-other', 0) + 1
         if tag == 'py' and L >= 2:
             c = layerwalk(prop, pk, T, N, letters, ins, vio, seq=seq)
             n += c
